@@ -36,7 +36,10 @@ def _some_params():
 
 
 def m_from_params(cls, params):
-    models.used('cryptodatahub PublicKey.from_params(params): returns a PublicKey for any parameter object (never raises)')
+    models.used('cryptodatahub PublicKey.from_params(params): returns a PublicKey whose .params are the given parameters '
+                '(never raises); .key_type is some member of Authentication')
+    if isinstance(params, (SObj, SAbs)):
+        return _abs('PublicKey', CK.PublicKey, dict(key_type=_some_key_type(), params=params))
     return _abs('PublicKey', CK.PublicKey, dict(key_type=_some_key_type(), params=_some_params()))
 
 
